@@ -145,7 +145,7 @@ def run(rep, ctx):
           r"mp::BasicSolver::(objno_specified|is_objno_specified|multiobj|objno_used|GetObjNo|SetObjNo|notify_obj_added|notify_start_opts|notify_end_opts)",
           r"mp::SolutionAdapter::.*", r"mp::WriteSolFile", r"mp::SolutionWriterImpl::[A-Za-z]*Solution",
           r"mp::ProblemFlattener::ConvertStandardItems"]
-    jobs = [dict(unit=U, fn=fn, repo=repo, closure=1, closure_roots=r"(SolverNLHandlerImpl::OnHeader|NLProblemBuilder::(OnHeader|NeedObj|resulting_nobj|resulting_obj_index))$"),
+    jobs = [dict(unit=U, fn=fn, repo=repo, closure=1, closure_roots=r"(SolverNLHandlerImpl::OnHeader|NLProblemBuilder::(OnHeader|NeedObj|resulting_nobj|resulting_obj_index)|SolutionWriterImpl::Handle(Feasible)?Solution|ObjHandler::(SkipExpr|OnLinearExpr|OnExpr))$"),
             dict(unit="src/solver.cc", fn=fn, repo=repo),
             dict(unit="solvers/visitor/visitor-modelapi-connect.cc",
                  fn=[r"mp::ProblemFlattener::ConvertStandardItems"], repo=repo)]
